@@ -302,6 +302,20 @@ theorem clone_spec (tx : Tx) (h : tx.wf) (hamb : ¬ tx.ambiguous) :
     | nil => rfl
     | cons i is ih => simp [ih]
 
+/-- what Tx.Clone returns: the same transaction with nil unlocking scripts replaced by empty ones -/
+def cloneNorm (tx : Tx) : Tx :=
+  { tx with inputs := tx.inputs.map fun i => { i with unlocking := some (i.unlocking.getD []) } }
+
+theorem clone_eq (tx : Tx) (h : tx.wf) (hamb : ¬ tx.ambiguous) : clone tx = some (cloneNorm tx) := by
+  unfold clone
+  rw [parseExact_serialize tx h hamb]
+  simp only [Tx.norm, List.length_map, ↓reduceIte, cloneNorm]
+  congr 2
+  generalize tx.inputs = is
+  induction is with
+  | nil => rfl
+  | cons i is ih => simp [ih, Input.norm, Input.normStd]
+
 /-! ### varint classes (VarInt.Length agrees with VarInt.Bytes; UpperLimitInc is the growth) -/
 
 theorem varint_length_classes (n : Nat) :
